@@ -23,7 +23,7 @@ type Mutation struct {
 	Seg    int `json:"seg"`   // index of the segment (TCP, per link direction) / datagram with payload (UDP, per direction)
 	Field  int `json:"field"` // 0 nonce, 1 encrypted metadata, 2 metadata tag, 3 padding 1, 4 body, 5 body tag, 6 padding 2, 7 segment boundary
 	Off    int `json:"off"`
-	Kind   int `json:"kind"` // 0 bit flip, 1 byte substitution, 2 insert N, 3 delete N, 4 truncate here, 5 swap with next, 6 replay an earlier segment, 7 splice a segment of another connection
+	Kind   int `json:"kind"` // 0 bit flip, 1 byte substitution, 2 insert N, 3 delete N, 4 truncate here, 5 swap with next, 6 replay an earlier segment, 7 splice a segment of another connection, 8 reflect (authentic bytes of the opposite direction of the same connection)
 	N      int `json:"n"`
 	Repeat int `json:"repeat"` // UDP: apply to the first Repeat transmissions of the addressed identity (1..3)
 }
@@ -36,7 +36,7 @@ type Case struct {
 }
 
 var fieldNames = []string{"nonce", "enc-meta", "meta-tag", "pad1", "body", "body-tag", "pad2", "boundary"}
-var kindNames = []string{"bitflip", "substitute", "insert", "delete", "truncate", "swap", "replay", "splice"}
+var kindNames = []string{"bitflip", "substitute", "insert", "delete", "truncate", "swap", "replay", "splice", "reflect"}
 
 func genCase(t *rapid.T) Case {
 	var c Case
@@ -61,7 +61,7 @@ func genCase(t *rapid.T) Case {
 		Seg:    rapid.IntRange(0, 7).Draw(t, "seg"),
 		Field:  rapid.IntRange(0, 7).Draw(t, "field"),
 		Off:    rapid.IntRange(0, 5000).Draw(t, "off"),
-		Kind:   rapid.IntRange(0, 7).Draw(t, "kind"),
+		Kind:   rapid.IntRange(0, 8).Draw(t, "kind"),
 		N:      rapid.SampledFrom([]int{1, 2, 16, 100}).Draw(t, "n"),
 		Repeat: rapid.IntRange(1, 3).Draw(t, "repeat"),
 	}
@@ -135,6 +135,7 @@ type tcpTamper struct {
 	earlier    [][]byte
 	shared     *sharedState
 	link       int
+	dir        int
 	note       string
 	hitField   string
 	hitPay     bool
@@ -143,7 +144,8 @@ type tcpTamper struct {
 
 type sharedState struct {
 	mu      sync.Mutex
-	samples map[int][]byte // a raw payload-carrying segment per link id, for splicing
+	samples map[int][]byte      // a raw payload-carrying segment per link id, for splicing
+	byDir   map[[2]int][][]byte // raw payload-carrying segments per (link id, direction), for reflection
 }
 
 func (t *tcpTamper) Filter(p []byte) []byte {
@@ -193,6 +195,9 @@ func (t *tcpTamper) process(seg *refproto.Segment, raw []byte) []byte {
 		t.shared.mu.Lock()
 		if _, ok := t.shared.samples[t.linkID()]; !ok {
 			t.shared.samples[t.linkID()] = raw
+		}
+		if k := [2]int{t.link, t.dir}; len(t.shared.byDir[k]) < 8 {
+			t.shared.byDir[k] = append(t.shared.byDir[k], raw)
 		}
 		t.shared.mu.Unlock()
 	}
@@ -267,9 +272,9 @@ func prop(c Case) (o pbt.Outcome) {
 	keys, _ := e2e.KeysFor(e2e.DefaultUsers, tStart)
 	var tampers []*tcpTamper
 	var tmu sync.Mutex
-	shared := &sharedState{samples: map[int][]byte{}}
+	shared := &sharedState{samples: map[int][]byte{}, byDir: map[[2]int][][]byte{}}
 	sn := simnet.NewStreamNet(simnet.StreamOpts{NewFilter: func(linkID, dir int) simnet.StreamFilter {
-		t := &tcpTamper{dec: refproto.NewStreamDecoder(keys), mut: c.Mut, active: dir == c.Mut.Dir && linkID == 0, shared: shared, link: linkID}
+		t := &tcpTamper{dec: refproto.NewStreamDecoder(keys), mut: c.Mut, active: dir == c.Mut.Dir && linkID == 0, shared: shared, link: linkID, dir: dir}
 		tmu.Lock()
 		tampers = append(tampers, t)
 		tmu.Unlock()
@@ -306,6 +311,17 @@ func prop(c Case) (o pbt.Outcome) {
 				if dir == c.Mut.Dir {
 					earlier = append(earlier, d.Data)
 				}
+				if c.Mut.Kind == 8 && dir != c.Mut.Dir && len(seg.Payload) > 0 && refproto.IsData(seg.Meta.Proto) && (dir == 0 || seg.Meta.Seq >= 2) {
+					// the man in the middle holds the genuine data of the other
+					// direction back a little (not the SOCKS5 response, which the client
+					// waits for before it sends), so that the reflected datagrams carry
+					// the sequence numbers their receiver is waiting for
+					return simnet.Fate{Delay: 30 * time.Millisecond}
+				}
+				return simnet.Fate{}
+			}
+			if c.Mut.Kind == 8 && !refproto.IsData(seg.Meta.Proto) {
+				// a reflected session segment is refused by its type on any tree
 				return simnet.Fate{}
 			}
 			id := ident{seg.Meta.SessionID, seg.Meta.Seq, seg.Meta.Proto}
@@ -319,8 +335,20 @@ func prop(c Case) (o pbt.Outcome) {
 				}
 			}
 			earlier = append(earlier, d.Data)
-			if target == nil || *target != id {
+			if target == nil || (*target != id && c.Mut.Kind != 8) {
 				return simnet.Fate{}
+			}
+			if c.Mut.Kind == 8 {
+				// reflect: this and every later payload datagram of the direction (at
+				// most 12) is also delivered back to its sender, byte for byte
+				if applied >= 12 {
+					return simnet.Fate{}
+				}
+				applied++
+				uhitPay = true
+				ufield, ustructural = "datagram", true
+				unote = fmt.Sprintf("reflect: datagrams from seq %d on are also delivered back to their sender", target.seq)
+				return simnet.Fate{Reflect: true}
 			}
 			// handshake-phase datagrams may be hit once only (see C02: fairness)
 			limit := c.Mut.Repeat
@@ -425,7 +453,11 @@ func prop(c Case) (o pbt.Outcome) {
 			}
 		}
 	}
-	if c.Cfg.UDP {
+	if c.Cfg.UDP && c.Mut.Kind == 8 {
+		// reflection adds authentic datagrams of the other direction; the
+		// property's claim for it is the safety clause above (mieru ends the
+		// session on a wrong-direction segment, which the property allows)
+	} else if c.Cfg.UDP {
 		// a modified datagram is discarded as if lost and the stream still completes intact
 		for i, s := range res.Sessions {
 			if s.OpenErr != "" {
